@@ -127,6 +127,26 @@ def noSplitOfFields (c : String) : List (String × RExp) → Bool
   | (_, e) :: es => noSplitOf c e && noSplitOfFields c es
 end
 
+mutual
+/-- no `merge` over call `c` anywhere inside -/
+def noMergeOf (c : String) : RExp → Bool
+  | .lit _ => true
+  | .arr xs => noMergeOfList c xs
+  | .map kvs => noMergeOfFields c kvs
+  | .struct kvs => noMergeOfFields c kvs
+  | .ref _ _ _ => true
+  | .split _ _ e => noMergeOf c e
+  | .merge c' _ e => c' != c && noMergeOf c e
+  | .disabled d v => noMergeOf c d && noMergeOf c v
+  | .fork _ _ e => noMergeOf c e
+def noMergeOfList (c : String) : List RExp → Bool
+  | [] => true
+  | e :: es => noMergeOf c e && noMergeOfList c es
+def noMergeOfFields (c : String) : List (String × RExp) → Bool
+  | [] => true
+  | (_, e) :: es => noMergeOf c e && noMergeOfFields c es
+end
+
 /-- the result of `MergeExp.BindingPath` for a merge over call `c` whose (projected) value is
 `v`: "merging the elements of a collection which was split over the very same call gives back
 the collection (for example a mapped pipeline returning its split input)" — when the
